@@ -262,6 +262,16 @@ fn rpath(c: &Case<'_>) -> Out {
 pub fn files_dir() -> &'static std::path::PathBuf {
     static D: OnceLock<std::path::PathBuf> = OnceLock::new();
     D.get_or_init(|| {
+        // remove the directories of earlier runs whose process is gone
+        if let Ok(rd) = std::fs::read_dir(std::env::temp_dir()) {
+            for e in rd.flatten() {
+                if let Some(pid) = e.file_name().to_str().and_then(|n| n.strip_prefix("vh-c19-")).and_then(|p| p.parse::<u32>().ok()) {
+                    if !std::path::Path::new(&format!("/proc/{pid}")).exists() {
+                        let _ = std::fs::remove_dir_all(e.path());
+                    }
+                }
+            }
+        }
         let d = std::env::temp_dir().join(format!("vh-c19-{}", std::process::id()));
         let _ = std::fs::create_dir_all(d.join("dir"));
         let _ = std::fs::write(d.join("size0"), b"");
